@@ -465,6 +465,9 @@ FS_PROBES = {'os.path.isfile', 'os.path.exists', 'os.path.isdir', 'os.path.islin
              'os.path.getsize', 'os.listdir', 'os.scandir', 'glob.glob', 'pathlib.Path'}
 
 
+STDIN_STATE_PROBES = {'select.select', 'select.poll', 'os.fstat', 'os.get_blocking', 'os.set_blocking', 'fcntl.fcntl', 'fcntl.ioctl'}
+
+
 @rule('C19.9')
 def target_source_is_chosen_by_the_arguments(ctx):
     """where the target comes from is decided by the command line alone -- a target argument is
@@ -474,8 +477,19 @@ def target_source_is_chosen_by_the_arguments(ctx):
     file's content, or refuses readable non-regular files (pipes, /dev/stdin)"""
     p = ctx.program
     n = 0
-    for q in ('cli.mw_get_target', 'cli.mw_handle_target', 'cli.glom_cli'):
+    # the three stages and every cli helper they call (a probe moved into a helper is still a probe)
+    todo, units = ['cli.mw_get_target', 'cli.mw_handle_target', 'cli.glom_cli'], []
+    while todo:
+        q = todo.pop()
+        if q in [x.qualname for x in units] or q not in p.units:
+            continue
         u = ctx.unit(q)
+        units.append(u)
+        for c in calls_in(u):
+            cq = callee_qual(p, u, c)
+            if cq and cq.startswith('cli.') and cq in p.units:
+                todo.append(cq)
+    for u in units:
         for c in calls_in(u):
             n += 1
             cq = callee_qual(p, u, c)
@@ -483,6 +497,14 @@ def target_source_is_chosen_by_the_arguments(ctx):
             if bad:
                 ctx.ob(False, u, 'the CLI does not probe the file system: %s' % norm(c)[:60],
                        'the source of the target would depend on what exists in the current directory', node=c)
+            # ... nor the *state* of standard input: whether the producer of a pipe has written yet
+            # is a race (select / poll / peek); the one documented test is "is it a terminal"
+            timing = cq in STDIN_STATE_PROBES or cq.startswith('select.') or cq.startswith('selectors.') \
+                or (isinstance(c.func, ast.Attribute) and c.func.attr in ('peek', 'readable', 'seekable', 'fileno')
+                    and norm(c.func.value) in ('sys.stdin', 'sys.stdin.buffer'))
+            if timing:
+                ctx.ob(False, u, 'standard input is read when the arguments say so, whatever its momentary state: %s' % norm(c)[:60],
+                       'a slow producer (`slow | glom`) is taken for "no input": the target silently becomes {}', node=c)
     u = ctx.unit('cli.mw_get_target')
     opens = [c for c in calls_in(u) if is_name(c.func, 'open')]
     ok = len(opens) == 2 and all(c.args and is_name(c.args[0]) and c.args[0].id in ('spec_file', 'target_file') for c in opens)
